@@ -1,7 +1,7 @@
 (* C11 property theorems: statements only, each closed by [exact]. *)
 From Boltons Require Import Lib.Prelude Lib.C11_Iface Spec.C11_Spec Model.C11_Model Gen.C11_Gen Check.C11_Check
      Proofs.C11_Lists Proofs.C11_Dead Proofs.C11_Inv Proofs.C11_Sets Proofs.C11_Refine Proofs.C11_Slice
-     Proofs.C11_Main Proofs.C11_Transfer Gen.C11_Src Proofs.C11_SrcEq.
+     Proofs.C11_Main Proofs.C11_Transfer Gen.C11_Src Proofs.C11_SrcEq Lib.C11_PyImp Gen.C11_Cull Proofs.C11_CullEq.
 From Coq Require Import Permutation Sorted.
 
 (* MAIN: for every compaction configuration, every history of the 29 public
@@ -75,6 +75,13 @@ Theorem C11_source_apparent_index : forall s x r n,
   src_get_apparent_index s (Z.of_nat r) = Z.of_nat n.
 Proof. exact source_apparent_index. Qed.
 Print Assumptions C11_source_apparent_index.
+
+(* (T) the text of _cull, regenerated from the current source on every run (Gen/C11_Cull.v: the branch
+   order, the conditions with their operators and constants, the two while loops of the right-trim),
+   is the model's _cull with the constants of Gen/C11_Gen.v *)
+Theorem C11_source_cull : forall s, Inv0 s -> src_cull s = m_cull gen_cfg s.
+Proof. exact source_cull. Qed.
+Print Assumptions C11_source_cull.
 
 (* s[a:b:k], k > 0: iter_slice + islice = the list slice of CPython *)
 Theorem C11_slice : forall s a b k, Inv s -> valid_op (m_live s) (Slice a b k) = true ->
